@@ -42,23 +42,23 @@ type connPol struct {
 }
 
 type connScen struct {
-	ID      string                `json:"id"`
-	Idx     int                   `json:"idx"`
-	URL     string                `json:"url"`
-	Method  string                `json:"method"`
-	Secret  string                `json:"secret"`
-	URLKey  string                `json:"urlKey"`
+	ID     string `json:"id"`
+	Idx    int    `json:"idx"`
+	URL    string `json:"url"`
+	Method string `json:"method"`
+	Secret string `json:"secret"`
+	URLKey string `json:"urlKey"`
 	// Dest / Redir: the addresses the request's host (and the host of the redirect the listener answers with)
 	// stand for - what the resolver is set up to answer, or the literal - with their ports; oracle input only.
-	Dest      [][]int `json:"dest"`
-	DestPort  string  `json:"destPort"`
-	Redir     [][]int `json:"redir"`
-	RedirPort string  `json:"redirPort"`
-	Headers map[string][]string   `json:"headers"`
-	DNS     map[string][]addrCase `json:"dns"`
-	Proc    connPol               `json:"proc"`
-	Ceil    connPol               `json:"ceil"`
-	Serve   struct {
+	Dest      [][]int               `json:"dest"`
+	DestPort  string                `json:"destPort"`
+	Redir     [][]int               `json:"redir"`
+	RedirPort string                `json:"redirPort"`
+	Headers   map[string][]string   `json:"headers"`
+	DNS       map[string][]addrCase `json:"dns"`
+	Proc      connPol               `json:"proc"`
+	Ceil      connPol               `json:"ceil"`
+	Serve     struct {
 		Kind     string `json:"kind"` // ok | redirect | big | gzip | stall
 		Bytes    int    `json:"bytes"`
 		StallMs  int    `json:"stallMs"`
